@@ -279,7 +279,7 @@ func (e *Engine) evCall(c *ast.CallExpr, st *State) []Value {
 				}
 				return []Value{{"false", types.Typ[types.Bool]}}
 			}
-		case "lastInt", "lastResStr", "lastResValue", "lastArgInt", "lastArgStr", "lastArgBool", "lastArgBytes", "lastArgLen":
+		case "lastInt", "lastResStr", "lastResValue", "lastArgInt", "lastArgStr", "lastArgBool", "lastArgBytes", "lastArgLen", "lastArgType":
 			// lastInt("f"): first result of the latest call to f; lastArgInt("f", i): its i-th argument (`opt track`)
 			if e.isSpecHelper(id) {
 				tv := e.pk.Info.Types[c.Args[0]]
